@@ -51,6 +51,13 @@ import (
 //	               slot N" jobs (beaconblockproposer/standard) and the proposal
 //	               preparer's periodic job.
 //	auction        AuctionBlock from the "Early beacon block proposal" jobs.
+//	explicitRegs   SubmitValidatorRegistrations(ctx, accounts): the public entry
+//	               point of the registration logic (interface
+//	               blockrelay.ValidatorRegistrationsSubmitter).  Nothing in vouch
+//	               calls it today, but it is exported API that is not behind the
+//	               round's activity semaphore, so it is generated (at the lead's
+//	               request) against the scheduled round and against itself, with
+//	               accounts that are new in every repetition.
 //	restBid        BuilderBid: one goroutine per HTTP request of the REST daemon
 //	               (restdaemon.WithBuilderBidProvider(s)); several beacon nodes ask.
 //	restRegs       ValidatorRegistrations: REST daemon request goroutine
@@ -403,6 +410,23 @@ func (w *relayWorld) run(rep int, ri int, _ *Role, op *Op, call uint64) {
 			}
 			w.bidObs[ri] = append(w.bidObs[ri], o)
 		}
+	case "submit":
+		// explicit round: positions 0-3 of the mask are vouch's accounts (mostly signed
+		// already), 4-5 accounts that are new in this repetition, so that signing
+		// really happens and two explicit rounds can sign for the same new validator
+		accounts := map[phase0.ValidatorIndex]e2wtypes.Account{}
+		for i := uint64(0); i < 6; i++ {
+			if op.B&(1<<i) == 0 {
+				continue
+			}
+			if i < relayVals {
+				accounts[phase0.ValidatorIndex(i)] = w.accts.accts[i]
+			} else {
+				idx := 1000 + uint64(rep)*2 + (i - relayVals)
+				accounts[phase0.ValidatorIndex(idx)] = newFakeAccount(idx)
+			}
+		}
+		_ = w.svc.SubmitValidatorRegistrations(ctx, accounts)
 	case "regs":
 		var regs []*relaytypes.SignedValidatorRegistration
 		for i := uint64(0); i < 6; i++ {
@@ -511,6 +535,8 @@ func init() {
 					}
 					return ops
 				}},
+			{kind: "explicitRegs", max: 2, why: "SubmitValidatorRegistrations(ctx, accounts), the service's public entry point (blockrelay.ValidatorRegistrationsSubmitter): not behind activitySem, so it overlaps the scheduled round and itself",
+				gen: rep(1, 2, func(t *rapid.T) Op { return Op{K: "submit", B: rapid.Uint64Range(1, 63).Draw(t, "mask")} })},
 			{kind: "restRegs", max: 2, why: "REST daemon: one goroutine per validator-registrations request",
 				gen: rep(1, 2, func(t *rapid.T) Op { return Op{K: "regs", B: rapid.Uint64Range(1, 63).Draw(t, "mask")} })},
 		},
